@@ -16,7 +16,9 @@ execution is an `Outcome`:
                       bracket for root_scalar; a fixed point of the map for fixed_point) or the call raises.
 
 Whitelisted statements: `def` (closures, inlined at the call with *late binding* like python), assignments to plain
-names, `if` on None-ness / truthiness of parameters (decided by the pattern), `if not sol.success: raise` (part of
+names, attribute stores `self.<name> = <value>` of a constructor (recorded in `Outcome.stores`: the values the object keeps
+beyond what it hands to the base constructor - translated further by `c04_stored.py`; execution continues after the base
+constructor call, and `self.<name>` may be read back once stored / handed to the base constructor), `if` on None-ness / truthiness of parameters (decided by the pattern), `if not sol.success: raise` (part of
 the oracle contract), `if a > b` on translated expressions inside a residual (-> guarded alternatives), `raise`,
 `return dict(...)`, `return <expr>`, `return np.array([...])`, docstrings.  Whitelisted expressions: those of
 `pyexpr.ExprTranslator`, calls of local closures, constant subscripts of vector parameters.  Values outside the
@@ -82,6 +84,7 @@ class Outcome:
         self.oracles = oracles or []
         self.calls = calls or []    # solver calls met in a constructor: (solver name, {param: Expr|None})
         self.notes = notes or []
+        self.stores = {}            # constructor: {attribute: Expr | None | Opaque | ...} stored with `self.<attribute> = ...`
 
     def signature(self):
         return (self.kind, repr(self.value), repr([(o["kind"], o["residual"]) for o in self.oracles]))
@@ -106,6 +109,8 @@ class Exec(pyexpr.ExprTranslator):
         self.notes = []
         self.solver_keys = solver_keys or {}
         self.depth = 0
+        self.stores = {}            # constructor: attribute name -> value stored on the object (`self._tip_angle = ...`)
+        self.init_value = None      # constructor: keyword arguments of the base constructor call, once it has been met
 
     # ---- expressions ----------------------------------------------------------------------------------
     def tr(self, n):
@@ -138,6 +143,16 @@ class Exec(pyexpr.ExprTranslator):
             raise Untranslatable(f"call of {n.func.id} does not give a scalar")
         if isinstance(n, ast.Call) and isinstance(n.func, ast.Name) and n.func.id == "deg2rad" and len(n.args) == 1:
             return ("mul", self.tr(n.args[0]), ("div", ("pi",), ("nat", 180)))
+        if isinstance(n, ast.Call) and isinstance(n.func, ast.Name) and n.func.id == "rad2deg" and len(n.args) == 1:
+            return ("mul", self.tr(n.args[0]), ("div", ("nat", 180), ("pi",)))
+        if isinstance(n, ast.Attribute):
+            p = pyexpr.attr_path(n)
+            if p is not None and p[0] == "self" and len(p) == 2:
+                # a constructor reading back what it (or the base constructor it has called) stored on the object
+                v = self.env.get("self." + p[1])
+                if isinstance(v, tuple):
+                    return v
+                raise Untranslatable(f"self.{p[1]} read where no translatable value has been stored on the object")
         return super().tr(n)
 
     def value(self, n):
@@ -338,8 +353,11 @@ class Exec(pyexpr.ExprTranslator):
                     continue
                 p = pyexpr.attr_path(t)
                 if p is not None and p[0] == "self" and len(p) == 2:
-                    # constructor: attribute store (self._tip_depth = tip_depth) - recorded, no effect on the plumbing
-                    self.env["self." + p[1]] = self.value(st.value)
+                    # constructor: attribute store (self._tip_depth = tip_depth) - no effect on the plumbing; recorded in
+                    # `stores` (-> c04_stored.py: the values the object hands out through its public properties)
+                    v = self.value(st.value)
+                    self.env["self." + p[1]] = v
+                    self.stores[p[1]] = v
                     continue
             if isinstance(st, ast.If) and isinstance(st.test, ast.Compare) and len(st.test.ops) == 1 \
                     and isinstance(st.test.ops[0], (ast.Gt, ast.Lt, ast.GtE, ast.LtE)) and not st.orelse \
@@ -369,7 +387,15 @@ class Exec(pyexpr.ExprTranslator):
                     out[kw.arg] = v
                 raise _Return(out)
             if isinstance(st, ast.Expr) and isinstance(st.value, ast.Call) and self._is_super_init(st.value.func):
-                raise _Return(self.init_kwargs(st.value))
+                if self.init_value is not None:
+                    raise Untranslatable("second call of the base constructor")
+                self.init_value = self.init_kwargs(st.value)
+                # execution continues: statements after the call may store further values on the object; what the base
+                # constructor was handed under keyword k is what it keeps as attribute k (K-checked: `plumb_*.<k>` vs the
+                # attribute of the finished groove), so `self.k` may be read back from here on
+                for k, e in self.init_value.items():
+                    self.env.setdefault("self." + k, e)
+                continue
             raise Untranslatable(f"statement {type(st).__name__}: {ast.unparse(st)[:100]}")
 
     @staticmethod
@@ -434,11 +460,16 @@ def run_pattern(fn, pattern, optional, solver_keys=None, consts=None):
     ex = Exec(env, solver_keys)
     try:
         ex.block(fn.body)
-        return Outcome("raise", "falls-off-the-end", ex.oracles, ex.calls, ex.notes)
+        if ex.init_value is not None:           # a constructor: ran to its end after calling the base constructor
+            oc = Outcome("return", ex.init_value, ex.oracles, ex.calls, ex.notes)
+        else:
+            oc = Outcome("raise", "falls-off-the-end", ex.oracles, ex.calls, ex.notes)
     except _Raise as r:
-        return Outcome("raise", r.name, ex.oracles, ex.calls, ex.notes)
+        oc = Outcome("raise", r.name, ex.oracles, ex.calls, ex.notes)
     except _Return as r:
-        return Outcome("return", r.value, ex.oracles, ex.calls, ex.notes)
+        oc = Outcome("return", r.value, ex.oracles, ex.calls, ex.notes)
+    oc.stores = dict(ex.stores)
+    return oc
 
 
 def optional_params(fn):
